@@ -33,7 +33,7 @@ from ..scripted import ProcessLogitsTap, StrategyCapture, make_scripted_policy
 from .decode import tiny_am
 
 FIXED = ["tsp", "atsp", "pdp"]
-VARIABLE = ["cvrp", "sdvrp", "op", "pctsp", "spctsp", "cvrptw", "mtvrp"]
+VARIABLE = ["cvrp", "sdvrp", "op", "pctsp", "spctsp", "cvrptw", "mtvrp", "mtsp"]  # mtsp: reward read from the final state
 ENVS = FIXED + VARIABLE
 AM_ENVS = ["tsp", "pdp", "cvrp", "sdvrp", "op", "pctsp", "spctsp", "cvrptw", "mtvrp"]
 
@@ -103,6 +103,8 @@ class C13:
         return {"cfg": cfg, "instances": [E.enc_row(r) for r in rows], "scorer": scorer,
                 "warm": [E.enc_row(r) for r in warm],
                 "width_frac": rc.random(), "width_max": bool(rc.random() < 0.25),
+                # "beam widths from 2 up to the number of nodes": beyond the number of distinct start nodes
+                "width_over": rc.randint(1, 4) if rc.random() < 0.2 else 0,
                 "temperature": rc.choice([0.5, 1.0, 1.0, 2.0]), "tanh": rc.choice([0, 0, 10]),
                 "select_best": bool(rc.random() < 0.5), "torch_seed": rc.randrange(1 << 30)}
 
@@ -162,6 +164,9 @@ class C13:
             return
         W = n_starts if plan["width_max"] else 2 + int(plan["width_frac"] * (n_starts - 1))
         W = max(2, min(W, n_starts))
+        if plan.get("width_over"):
+            W = min(n_starts + plan["width_over"], int(reset_mask.shape[-1]))
+            run.probe("width_beyond_start_nodes")
         if W == n_starts:
             run.probe("width_equals_starts")
         if name == "op" and not bool(reset_mask[:, 1:].any(-1).all()):
